@@ -58,6 +58,13 @@ def parse_float(spelling, value=None):
         return None
 
 
+_INT_T = re.compile(r"^(const )?(unsigned |signed )?(int|long|long long|short|char|std::size_t|size_t|unsigned|Eigen::Index|std::ptrdiff_t|long int|unsigned long)$")
+
+
+def _is_integer_type(t):
+    return bool(t) and bool(_INT_T.match(str(t).strip()))
+
+
 def mk(op, a, b):
     """constant folding for pure numbers, otherwise a plain node"""
     if a[0] == "num" and b[0] == "num":
@@ -677,6 +684,14 @@ class Frame:
                 self.e(n["c"][0])
                 return self.e(n["c"][1])
             a, b = self.e(n["c"][0]), self.e(n["c"][1])
+            if op in ("/", "%") and _is_integer_type(n.get("t")):
+                # C++ integer division truncates towards zero
+                a, b = self.fz(a), self.fz(b)
+                if a[0] == "num" and b[0] == "num" and b[1] != 0 and a[1].denominator == 1 and b[1].denominator == 1:
+                    q = abs(int(a[1])) // abs(int(b[1]))
+                    q = q if (a[1] >= 0) == (b[1] > 0) else -q
+                    return num(q) if op == "/" else num(int(a[1]) - q * int(b[1]))
+                return ("call", "idiv" if op == "/" else "imod", (a, b))
             return self.binop(op, a, b)
         if k == "ConditionalOperator":
             c = self.e(n["cond"])
